@@ -18,6 +18,7 @@ use sloc_guard::config::{
     Config, ConfigLoader, FileConfigLoader, SiblingRule, verif_validate_config_semantics,
 };
 use sloc_guard::scanner::StructureScanConfig;
+use sloc_guard::verif_hooks::normalize_for_matching;
 use std::collections::HashMap;
 use std::io::{self, BufRead, Write};
 use std::path::{Path, PathBuf};
@@ -42,9 +43,10 @@ fn compile(scope: &str) -> Option<globset::GlobMatcher> {
     globset::Glob::new(scope).ok().map(|g| g.compile_matcher())
 }
 
-/// limit-scope column: every structure rule's scope matcher on the raw path (what
-/// resolve_limits / explain / the sibling dir_matcher evaluate)
+/// limit-scope column: every structure rule's scope matcher on the NORMALISED path (what
+/// resolve_limits / explain / the sibling dir_matcher evaluate since fixes/D07)
 fn lim_scope(config: &Config, p: &Path) -> Vec<bool> {
+    let p = &normalize_for_matching(p);
     config
         .structure
         .rules
@@ -62,9 +64,12 @@ fn plc_scope(sc: Option<&StructureScanConfig>, p: &Path) -> Vec<bool> {
     })
 }
 
-fn columns(config: &Config, sc: Option<&StructureScanConfig>, p: &Path, kind: &str) -> Value {
-    let name = p.file_name().unwrap_or_default();
+fn columns(config: &Config, sc: Option<&StructureScanConfig>, raw: &Path, kind: &str) -> Value {
+    // names come from the raw walked path, path patterns see the normalised path (fixes/D07)
+    let name = raw.file_name().unwrap_or_default();
     let name_s = name.to_string_lossy();
+    let norm = normalize_for_matching(raw);
+    let p: &Path = &norm;
     let (se_name, se_path, se_dir, ce_name, ce_path) = sc.map_or((false, false, false, false, false), |c| {
         (
             c.scanner_exclude.is_match(name),
@@ -102,7 +107,7 @@ fn columns(config: &Config, sc: Option<&StructureScanConfig>, p: &Path, kind: &s
                     first(r.deny_patterns.matches(name)),
                     first(r.deny_patterns.matches(p)),
                     first(r.deny_dirs.matches(name)),
-                    r.filename_matches_naming_pattern(p),
+                    r.filename_matches_naming_pattern(raw),
                 ])
             })
             .collect()
@@ -127,8 +132,8 @@ fn columns(config: &Config, sc: Option<&StructureScanConfig>, p: &Path, kind: &s
     let is_dir = kind == "d";
     json!({
         "se_name": se_name, "se_path": se_path, "se_dir": se_dir, "ce_name": ce_name, "ce_path": ce_path,
-        "lim": if is_dir { lim_scope(config, p) } else { Vec::new() },
-        "plc": if is_dir { plc_scope(sc, p) } else { Vec::new() },
+        "lim": if is_dir { lim_scope(config, raw) } else { Vec::new() },
+        "plc": if is_dir { plc_scope(sc, raw) } else { Vec::new() },
         "g": g, "r": r, "sib": sib,
     })
 }
@@ -136,7 +141,19 @@ fn columns(config: &Config, sc: Option<&StructureScanConfig>, p: &Path, kind: &s
 fn explain_json(checker: &StructureChecker, p: &Path) -> Value {
     let e = checker.explain(p);
     let v = serde_json::to_value(&e).unwrap_or(Value::Null);
+    // the implementation's own answer to: does rule i's scope match this directory (limit / explain site)
+    let chain: Vec<bool> = v
+        .get("rule_chain")
+        .and_then(Value::as_array)
+        .map(|a| {
+            a.iter()
+                .filter(|c| c.get("pattern").is_some_and(|p| !p.is_null()))
+                .map(|c| c.get("status").and_then(Value::as_str) != Some("no_match"))
+                .collect()
+        })
+        .unwrap_or_default();
     json!({
+        "chain": chain,
         "matched": v.get("matched_rule").cloned().unwrap_or(Value::Null),
         "max_files": e.effective_max_files,
         "max_dirs": e.effective_max_dirs,
